@@ -376,11 +376,22 @@ def same_obs(x, y):
 
 
 MANIFEST = {
-    "text": "Coq theorems about an executable spec_float model of rlib_f80 (IEEE operations at prec 64 / emax 16384, "
-            "comparisons read from the x87 flags exactly as the code reads them); the model is tied to the inline "
-            "assembly on every run: raw results of + - * / neg, an operation chain, all conversions, all relations, "
-            "min/max/abs on boundary x boundary binary64 patterns plus random pairs are compared with the model and, "
-            "independently, with exact integer/rational arithmetic (nearest-even check against both neighbours).",
+    "text": "Coq theorems (35 pinned; standard-library classical-real axioms through Flocq) about an executable "
+            "spec_float model of rlib_f80 (IEEE operations at prec 64 / emax 16384, comparisons read from the x87 flags "
+            "exactly as the code reads them): c18_transport_add/sub/mul/div (the executable SpecFloat operations at "
+            "(64,16384) ARE Flocq's Bplus/Bminus/Bmult/Bdiv), c18_add/sub/mul/div_correct and *_correct_f80 (for operands "
+            "that are images of binary64 values - never overflowing - and for arbitrary extended-format operands while the "
+            "result does not overflow: the exact real result rounded once to nearest-even at 64 bits), c18_*_special (signed zeros, infinities, "
+            "NaN table), c18_neg, c18_widen_exact / c18_widen_injective / c18_roundtrip_f64 (f64 -> f80 is exact, f64 -> "
+            "f80 -> f64 is the identity), c18_narrow_correct / c18_narrow_special (f80 -> f64 rounds correctly), "
+            "c18_lt_is_ieee, c18_eq_is_ieee, c18_le_ge_partial_cmp, c18_eq_consistent, c18_compare_real / "
+            "c18_compare_real_f80 / c18_compare_inf, c18_nan_unordered, c18_zeros_equal (the relations as coded after the "
+            "two repairs are the IEEE relations), c18_min_max_abs / c18_min_max_ties, c18_rne_ok_sound / "
+            "c18_spec_check_sound (the per-case exact nearest-even check used by spec_check is sound). The model is tied "
+            "to the inline assembly on every run: raw results of + - * / neg, an operation chain, all conversions, all "
+            "relations, min/max/abs on boundary x boundary binary64 patterns plus random pairs are compared with the "
+            "model and, independently, with exact integer/rational arithmetic (nearest-even check against both "
+            "neighbours).",
     "level_note": "Trusted: Coq kernel + vm_compute, classical-real axioms of the standard library (through Flocq), "
                   "the Rust executor and the Python case printer; x87 semantics are assumed to be the IEEE semantics "
                   "of the model (checked bit for bit on every sampled input, not proved).",
